@@ -242,6 +242,7 @@ func run(cd *caseDef, faults []fault, recoverAfter bool) (res result) {
 		return
 	}
 	defer os.RemoveAll(dir)
+	defer waitNoMetaRollup() // background roll-ups of (nested) encrypt stores must not outlive the case's directory
 	env := vstore.NewEnv()
 	env.ErrKind = cd.ErrKind
 	env.SlowErrorReturn = 200 * time.Microsecond // the harness owns this bit of the schedule, see vstore
